@@ -232,6 +232,50 @@ def h_fd_twin(h, nparticles, stored):
                       np.asarray(ref.polynomialData.coefficients), rtol=0, atol=TOL)
 
 
+def h_weak_background(h, eps, units):
+    """'for any background the returned deviation satisfies the assembled linear system': ground
+    check with the real dense solve on a background whose variation (eps) or whose unit system makes
+    the source tiny in absolute terms -- the solution is still the solution (residual at rounding
+    level relative to the source), it scales linearly with eps, and it is not cut off to zero."""
+    import numpy.linalg as la
+    grid = Grid(5, 3, 1.0 / units, 1.0 * units)
+    parts = [types.SimpleNamespace(
+        msqVacuum=(lambda f: units * units * (0.25 + 1.5 * (np.asarray(f.getField(0)) / units) ** 2)),
+        statistics="Fermion", totalDOFs=12, name="top")]
+    rng = np.random.default_rng(7)
+    n = 2
+    chi = np.array([-1.0] + list(grid.chiValues) + [1.0])
+
+    def solve(e):
+        bg = BoltzmannBackground(
+            0.0, -0.3 + e * 0.1 * chi**3, Fields.castFromNumpy((units * (1.0 + e * 0.5 * np.tanh(2 * chi)))[:, None]),
+            units * (2.0 + e * 0.3 * np.tanh(chi)))
+        bs = BZ.BoltzmannSolver(grid, basisM="Cardinal", basisN="Cardinal", derivatives="Spectral")
+        bs.offEqParticles = parts
+        bs.setBackground(bg)
+        C = rng.normal(size=(1, n, n, 1, n, n)) * units
+        C[0, :, :, 0, :, :] += 3.0 * units * np.eye(n * n).reshape(n, n, n, n)
+        bs.collisionArray = CollisionArray.newFromPolynomial(Polynomial(
+            C, grid, ("Array", "Cardinal", "Cardinal", "Array", "Cardinal", "Cardinal"),
+            CollisionArray.AXIS_TYPES, endpoints=False), parts)
+        op, src, _, _ = bs.buildLinearEquations()
+        x = np.asarray(bs.solveBoltzmannEquations(), dtype=float)
+        return np.asarray(op, dtype=float), np.asarray(src, dtype=float), x
+    rng = np.random.default_rng(7)
+    op, src, x = solve(eps)
+    smax = float(np.max(np.abs(src)))
+    res = float(np.max(np.abs(op @ x.ravel() - src.ravel())))
+    h.prove("the background is inhomogeneous: the source does not vanish", Cond(b=smax > 0))
+    h.prove("returned deviation solves the assembled system (residual at rounding level relative to the source)",
+            Cond(b=res <= 1e-7 * smax))
+    h.prove("the deviation is not cut off to zero", Cond(b=float(np.max(np.abs(x))) > 0))
+    rng = np.random.default_rng(7)
+    op2, src2, x2 = solve(2 * eps)
+    if eps <= 1e-6:
+        h.prove("linear response: doubling a weak variation doubles the deviation",
+                Cond(b=bool(np.max(np.abs(x2 - 2 * x)) <= 1e-3 * np.max(np.abs(x2)) + 1e-300)))
+
+
 def h_background(h):
     """setBackground works on a deep copy and boosts the wall-frame background to the plasma
     frame: velocityWall = -velocityMid, profile boosted element-wise."""
@@ -271,6 +315,10 @@ HARNESSES = [
     HarnessDef("finite-difference-twin", h_fd_twin, [dict(nparticles=1, stored="Chebyshev"), dict(nparticles=2, stored="Cardinal")],
                [dict(nparticles=p, stored=b) for p in (1, 2) for b in ("Chebyshev", "Cardinal")], max_paths=4, timeout_s=60,
                encodes=[CollisionArray.changeBasis], random_validation=1),
+    HarnessDef("weak-background-still-solved", h_weak_background,
+               [dict(eps=1e-9, units=1.0), dict(eps=1e-3, units=1e-5), dict(eps=1e-2, units=1.0)],
+               [dict(eps=e, units=u) for e in (1e-10, 1e-9, 1e-6, 1e-2) for u in (1e-5, 1.0, 1e3)], max_paths=2, timeout_s=60,
+               encodes=[BZ.BoltzmannSolver.solveBoltzmannEquations], random_validation=0),
     HarnessDef("profile-derivatives", h_derivatives, _AQ, _AT, max_paths=8, timeout_s=60,
                encodes=[BZ.BoltzmannSolver.buildLinearEquations, Polynomial.derivative,
                         Polynomial.derivMatrix], random_validation=1),
